@@ -80,12 +80,28 @@ let () =
         let canon = canonical_parse s in
         let vs = List.sort_uniq compare (List.map (normalise s canon) (split_on '|' obs)) in
         report_case ln ~expected:canon ~got:(String.concat "|" vs)
-      | ["E"; _who; batch; msgs; obs] ->
+      | ["E"; who; batch; msgs; obs] ->
         let ms = List.map abs_msg (split_on ';' msgs) in
-        let exp = match W.enc_msgs (batch = "1") ms with
-          | None -> "ENCFAIL"
+        (* inside the quantifier of C13: ids, raw values and error data are valid UTF-8 *)
+        let in_domain = List.for_all (fun m ->
+            J.valid_utf8 m.M.j_id && J.valid_utf8 m.M.j_params && J.valid_utf8 m.M.j_result &&
+            (match m.M.j_error with Some e -> J.valid_utf8 e.M.we_data | None -> true)) ms in
+        let enc = match who, ms with
+          | "X", [m] -> (match m.M.j_error with Some e -> W.marshal_error e | None -> None)
+          | "R", [m] ->
+            (* the error message has been through the server's encoder and the client's decoder *)
+            let fixm e = { e with M.we_msg = (match J.unmarshal_string (J.escape_string e.M.we_msg) with
+                                               | Some (Some x) -> x | _ -> raise (Bad_input "message round trip")) } in
+            let err = (match m.M.j_error with Some e -> Some (fixm e) | None -> None) in
+            let data_c e = (match e.M.we_data with [] -> e | d -> { e with M.we_data = compact_opt d }) in
+            W.response_marshal m.M.j_id (match err with Some e -> Some (data_c e) | None -> None) m.M.j_result
+          | "C", _ -> W.enc_msgs false ms            (* client messages never carry the batch flag *)
+          | _, _ -> W.enc_msgs (batch = "1") ms in
+        let exp = match enc with
+          | None -> "FAIL:*"
           | Some b -> let fl = flags b in
-            hexfield_of_bytes b ^ ":" ^ (if fl = "111" then fl else "model-" ^ fl) in
+            hexfield_of_bytes b ^ ":" ^ (if fl = "111" || not in_domain then fl else "model-" ^ fl) in
+        let obs = if String.length obs >= 5 && String.sub obs 0 5 = "FAIL:" && enc = None then "FAIL:*" else obs in
         report_case ln ~expected:exp ~got:obs
       | ["B"; body; outcome; obs] ->
         let s = bytes_of_hexfield body in
